@@ -9,7 +9,7 @@ TARGETS = ['pytezos.michelson.instructions.ticket.TicketInstruction.execute', 'p
            'pytezos.michelson.types.ticket.TicketType.split/join/create/to_comb', 'pytezos.michelson.types.base.MichelsonType.is_duplicable/duplicate',
            'pytezos.michelson.instructions.stack.DupInstruction.execute', 'pytezos.michelson.instructions.stack.DupnInstruction.execute']
 STUBS = ['hash() inside types/ticket.py (not called on the unchanged tree) -> model of CPython integer hashing on symbolic ints; hashing of other symbolic contents is outside the claim', 'execution context -> get_self_address() returns a fixed KT1 address', 'format_stdout -> no-op']
-BOUNDS = 'amounts: all naturals (unbounded); contents: int (unbounded) or string <= 2; ticketers from 2 addresses; one instruction from an arbitrary valid ticket state, plus SPLIT;JOIN and TICKET;SPLIT;JOIN programs'
+BOUNDS = 'amounts: all naturals (unbounded); contents: int (unbounded), string <= 2, pair int string, or int int, option int, pair (or int int) nat; ticketers from 2 addresses; one instruction from an arbitrary valid ticket state, plus SPLIT;JOIN and TICKET;SPLIT;JOIN programs'
 OUTSIDE = ['ticket transfer between contracts', 'programs longer than 3 ticket instructions']
 ASSUMPTIONS = ['state invariant: every existing ticket has a positive amount (what the property demands of every producer)']
 
@@ -320,5 +320,10 @@ def obligations(tier):
                 Ob(f'SPLIT_TICKET/{c}', 'bvx', sym_split, conc_split, P, timeout=t, bounds='any ticket (amount >= 1), any parts; followed by JOIN_TICKETS', targets=TARGETS),
                 Ob(f'JOIN_TICKETS/{c}', 'bvx', sym_join, conc_join, P, timeout=t, bounds='any two tickets', targets=TARGETS),
                 Ob(f'READ_TICKET/{c}', 'bvx', sym_read, conc_read, P, timeout=t, bounds='any ticket', targets=TARGETS)]
+    # contents whose equality has to look at which branch / whether a value is present (JOIN_TICKETS compares contents)
+    for c in ('or int int', 'option int', 'pair (or int int) nat'):
+        P = {'contents': c}
+        obs += [Ob(f'JOIN_TICKETS/{c}', 'bvx', sym_join, conc_join, P, timeout=t, bounds='any two tickets', targets=TARGETS),
+                Ob(f'SPLIT_TICKET/{c}', 'bvx', sym_split, conc_split, P, timeout=t, bounds='any ticket (amount >= 1), any parts; followed by JOIN_TICKETS', targets=TARGETS)]
     obs.append(Ob('DUP/ticket-bearing', 'bvx', sym_dup, conc_dup, timeout=t, bounds=f'DUP, DUP 1, DUP 2 on {len(WRAPS)} value shapes containing a ticket', targets=TARGETS))
     return obs
